@@ -418,6 +418,14 @@ val cumsum_flt : q option -> sval list -> sval list
 
 val map2 : ('a1 -> 'a2 -> 'a3) -> 'a1 list -> 'a2 list -> 'a3 list
 
+val cmp_cells : cmpop -> sval -> sval list -> sval list
+
+val div_cells_sc : sval -> sval list -> sval list
+
+val div_cells : sval list -> sval list -> sval list
+
+val coerce_cells : dtype -> sval list -> sval list
+
 type store = (var * value) list
 
 val get : store -> var -> value
@@ -504,6 +512,8 @@ val k__cross_correlogram : func
 val k__overlap_split : func
 
 val all_kernels : func list
+
+val run0 : nat -> func -> value list -> outcome
 
 val q_ticks : q -> z option
 
